@@ -6,6 +6,7 @@
 (0)  translation validation of the PuLP stand-in used in (i) and in C01/C03/C04/C12 against real PuLP.
 """
 import json
+import zlib
 import random
 import re
 import time
@@ -117,7 +118,7 @@ def _concrete_vals(cfg, rng):
 
 def worker_standin(case, seed):
     cfg = LM.default_cfg(**case)
-    rng = random.Random(seed * 7919 + hash(json.dumps(case, sort_keys=True)) % 100000)
+    rng = random.Random(seed * 7919 + zlib.crc32(json.dumps(case, sort_keys=True).encode()) % 100000)
     M = LM.build(cfg)
     vals = _concrete_vals(cfg, rng)
     d = CP.real_first_stage_dict(cfg, vals, M.growth)
@@ -251,8 +252,14 @@ def main(tier, seed, only=None):
                         if not thorough and N == 14 and d == "code_implies_spec":
                             continue      # ~5 min per case; the 14-month code => audit direction runs in C01's quick tier, the full one in the thorough tier
                         eq.append(dict(N=N, opt=opt, store=store, flags=fl, direction=d, rotation=False))
+    from harness.C01_allocations import DISTINCT_WASTE
+    for opt in ("to_humans", "to_animals"):
+        for store in (True, False):
+            for d in ("code_implies_spec", "spec_implies_code"):
+                eq.append(dict(N=5, opt=opt, store=store, flags=full, direction=d, rotation=False, retail_by=DISTINCT_WASTE))
     st = [dict(N=n, opt=o, store=s, flags=f, rotation=r, retail=w) for n in (3, 14) for o in ("to_humans", "to_animals") for s in (True, False) for f in (full, core)
           for (r, w) in ((False, 6.08), (True, 24.98)) if not (r and n == 3)]
+    st += [dict(N=5, opt=o, store=s, flags=full, rotation=False, retail=6.08, retail_by=DISTINCT_WASTE) for o in ("to_humans", "to_animals") for s in (True, False)]
     sc = _scenarios()
     names = sorted(sc)
     inst = []
